@@ -205,7 +205,9 @@ def parse_result_file(path):
     m = re.search(r"^Verification Time: ([0-9.]+)s", txt, re.M)
     if m:
         t = float(m.group(1))
-    timed_out = "timed out" in txt.lower() or "timeout" in txt.lower() and verdict is None
+    timed_out = "CBMC timed out" in txt or "CBMC failed" in txt
+    if timed_out:
+        verdict = None
     return {"checks": checks, "verdict": verdict, "time": t, "raw_tail": txt[-3000:], "timed_out": timed_out}
 
 
